@@ -15,12 +15,22 @@ import (
 // c03Request decides R-C03-4 and the decision-table half of R-C03-5 on the function that
 // builds the outbound request (the function storing the stripped header).
 func c03Request(c *core.Ctx, f *flow.Func, stores []*c03hdrStore) {
+	sc := newC03scope(f, 3)
+	c03with(sc, func() { c03RequestIn(c, f, sc, stores) })
+}
+
+func c03RequestIn(c *core.Ctx, f *flow.Func, sc *c03scope, stores []*c03hdrStore) {
 	name := c03fnName(f)
+	// every syntactic search covers the builder and the same-package helpers it calls
+	inspectAll := func(visit func(n ast.Node) bool) {
+		for _, g := range sc.fns {
+			ast.Inspect(g.Body, visit)
+		}
+	}
 	reqT := namedType(c, c03hp, "Request")
-	inField := structField(c, c03px, "serverPoolContext", "req")
-	outField := structField(c, c03px, "serverPoolContext", "stdReq")
+	inField, outField := c03poolCtxFields(c)
 	urlField := structField(c, c03px, "Server", "URL")
-	aField := structField(c, c03px, "Server", "addrIsHostName")
+	aField := c03hostNameFlag(c)
 	kField := structField(c, c03px, "Server", "KeepHost")
 	hostField := c03stdField(c, "net/http", "Request", "Host")
 	rawQuery := c03stdField(c, "net/url", "URL", "RawQuery")
@@ -50,7 +60,11 @@ func c03Request(c *core.Ctx, f *flow.Func, stores []*c03hdrStore) {
 		o := c03obj(f, id)
 		defs := c03defs(f, o)
 		if len(defs) == 0 {
-			// parameter of type *httpprot.Request
+			// a helper's parameter stands for the argument it is called with; a parameter of
+			// the builder itself of type *httpprot.Request is the client's request
+			if arg := sc.bindExpr[o]; arg != nil {
+				return inbound(arg, depth+1)
+			}
 			_, isVar := o.(*types.Var)
 			return isVar
 		}
@@ -104,7 +118,19 @@ func c03Request(c *core.Ctx, f *flow.Func, stores []*c03hdrStore) {
 		"HTTPHeader": stdHeader,
 		"Path":       c03stdField(c, "net/url", "URL", "Path"),
 	}
-	inAttr := func(e ast.Expr, m string) bool {
+	var inAttr func(e ast.Expr, m string) bool
+	inAttr = func(e ast.Expr, m string) bool {
+		if id, ok := ast.Unparen(e).(*ast.Ident); ok {
+			// a value passed through a local or a helper's parameter
+			o := c03obj(f, id)
+			if arg := sc.bindExpr[o]; arg != nil && len(c03defs(f, o)) == 0 {
+				return inAttr(arg, m)
+			}
+			if defs := c03defs(f, o); len(defs) == 1 && defs[0].rhs != nil {
+				return inAttr(defs[0].rhs, m)
+			}
+			return false
+		}
 		if inCall(e, m) {
 			return true
 		}
@@ -115,7 +141,10 @@ func c03Request(c *core.Ctx, f *flow.Func, stores []*c03hdrStore) {
 	}
 
 	// the request constructor
-	ctor := callsTo(f, f.Body, false, "net/http.NewRequestWithContext", "net/http.NewRequest")
+	var ctor []*ast.CallExpr
+	for _, g := range sc.fns {
+		ctor = append(ctor, callsTo(g, g.Body, false, "net/http.NewRequestWithContext", "net/http.NewRequest")...)
+	}
 	if len(ctor) != 1 {
 		c.Undecide("R-C03-4", name+"|outbound request construction", pos(c, f.Node), sprintf("expected one http.NewRequest[WithContext] call, found %d", len(ctor)))
 		return
@@ -131,7 +160,7 @@ func c03Request(c *core.Ctx, f *flow.Func, stores []*c03hdrStore) {
 	}
 	var outVar, errVar types.Object
 	var errIdent *ast.Ident
-	ast.Inspect(f.Body, func(n ast.Node) bool {
+	inspectAll(func(n ast.Node) bool {
 		if as, ok := n.(*ast.AssignStmt); ok && len(as.Rhs) == 1 && ast.Unparen(as.Rhs[0]) == ast.Expr(newReq) && len(as.Lhs) == 2 {
 			if id, ok := as.Lhs[0].(*ast.Ident); ok {
 				outVar = c03obj(f, id)
@@ -143,6 +172,48 @@ func c03Request(c *core.Ctx, f *flow.Func, stores []*c03hdrStore) {
 		}
 		return true
 	})
+	if outVar == nil {
+		// the constructor's results are returned by a helper: the request is what the helper's
+		// caller assigns them to
+		for _, g := range sc.fns {
+			fd, ok := g.Node.(*ast.FuncDecl)
+			if !ok {
+				continue
+			}
+			returnsIt := false
+			ast.Inspect(fd.Body, func(n ast.Node) bool {
+				if r, ok := n.(*ast.ReturnStmt); ok && len(r.Results) == 1 && ast.Unparen(r.Results[0]) == ast.Expr(newReq) {
+					returnsIt = true
+				}
+				return true
+			})
+			if !returnsIt {
+				continue
+			}
+			helper := g.Info.Defs[fd.Name]
+			inspectAll(func(n ast.Node) bool {
+				as, ok := n.(*ast.AssignStmt)
+				if !ok || len(as.Rhs) != 1 || len(as.Lhs) != 2 {
+					return true
+				}
+				call, ok := ast.Unparen(as.Rhs[0]).(*ast.CallExpr)
+				if !ok {
+					return true
+				}
+				if fo, ok := f.Callee(call).(*types.Func); !ok || types.Object(fo.Origin()) != helper {
+					return true
+				}
+				if id, ok := as.Lhs[0].(*ast.Ident); ok {
+					outVar = c03obj(f, id)
+				}
+				if id, ok := as.Lhs[1].(*ast.Ident); ok && id.Name != "_" {
+					errVar = c03obj(f, id)
+					errIdent = id
+				}
+				return true
+			})
+		}
+	}
 	if outVar == nil {
 		c.Undecide("R-C03-4", name+"|outbound request construction", pos(c, newReq), "the constructed request is not assigned to a variable")
 		return
@@ -188,8 +259,49 @@ func c03Request(c *core.Ctx, f *flow.Func, stores []*c03hdrStore) {
 		v, ok := r.(*types.Var)
 		return ok && len(c03defs(f, v)) == 0 // a parameter (the chosen server)
 	}
+	// through: follow a value through plain locals and through the returns of helpers of the
+	// scope down to the variable / expression that produced it
+	through := func(e ast.Expr) ast.Expr {
+		for depth := 0; depth < 4; depth++ {
+			e = ast.Unparen(e)
+			if id, ok := e.(*ast.Ident); ok {
+				o := c03obj(f, id)
+				if arg := sc.bindExpr[o]; arg != nil && len(c03defs(f, o)) == 0 {
+					e = arg
+					continue
+				}
+				defs := c03defs(f, o)
+				if len(defs) == 1 && defs[0].rhs != nil {
+					if _, exprs := sc.helperReturns(defs[0].rhs, 0); len(exprs) > 0 {
+						e = defs[0].rhs
+						continue
+					}
+					if rid, ok := defs[0].rhs.(*ast.Ident); ok && defs[0].tok == token.DEFINE {
+						e = rid
+						continue
+					}
+				}
+				return e
+			}
+			_, exprs := sc.helperReturns(e, 0)
+			if len(exprs) == 0 {
+				return e
+			}
+			same := true
+			for _, x := range exprs[1:] {
+				if f.Render(x) != f.Render(exprs[0]) {
+					same = false
+				}
+			}
+			if !same {
+				return e
+			}
+			e = exprs[0]
+		}
+		return e
+	}
 	classifyURL := func() {
-		id, ok := ast.Unparen(newReq.Args[off+1]).(*ast.Ident)
+		id, ok := through(newReq.Args[off+1]).(*ast.Ident)
 		if !ok {
 			u.why = "URL argument is not a local variable"
 			return
@@ -269,30 +381,93 @@ func c03Request(c *core.Ctx, f *flow.Func, stores []*c03hdrStore) {
 	// --- body variable
 	var payVar types.Object
 	payDirect := false
-	if id, ok := ast.Unparen(newReq.Args[off+2]).(*ast.Ident); ok {
+	// paySites: the statements that decide what the body is (assignments to the body variable,
+	// or the return statements of a helper producing it) with the expression they yield
+	paySites := map[ast.Node]ast.Expr{}
+	var addPaySite func(at ast.Node, e ast.Expr, depth int)
+	addPaySite = func(at ast.Node, e ast.Expr, depth int) {
+		if rets, exprs := sc.helperReturns(e, 0); len(rets) > 0 && depth < 3 {
+			for i, r := range rets {
+				addPaySite(r, exprs[i], depth+1)
+			}
+			return
+		}
+		if id, ok := ast.Unparen(e).(*ast.Ident); ok && depth < 3 {
+			// a local of the helper (named result, or a variable assigned on several paths)
+			if defs := c03defs(f, c03obj(f, id)); len(defs) > 0 {
+				zero := func(d c03def) bool {
+					vs, ok := d.at.(*ast.ValueSpec)
+					return ok && len(vs.Values) == 0
+				}
+				all := true
+				for _, d := range defs {
+					if d.rhs == nil && !zero(d) {
+						all = false
+					}
+				}
+				if all {
+					for _, d := range defs {
+						if zero(d) {
+							paySites[d.at] = nil // declared without a value: no body yet
+						} else {
+							addPaySite(d.at, d.rhs, depth+1)
+						}
+					}
+					return
+				}
+			}
+		}
+		paySites[at] = e
+	}
+	bodyArg := ast.Unparen(newReq.Args[off+2])
+	if id, ok := bodyArg.(*ast.Ident); ok {
 		payVar = c03obj(f, id)
-	} else if inCall(newReq.Args[off+2], "GetPayload") {
+		if arg := sc.bindExpr[payVar]; arg != nil && len(c03defs(f, payVar)) == 0 {
+			addPaySite(newReq, arg, 0)
+		} else {
+			for _, d := range c03defs(f, payVar) {
+				if d.rhs != nil {
+					addPaySite(d.at, d.rhs, 0)
+				} else {
+					paySites[d.at] = nil
+				}
+			}
+		}
+	} else if inCall(bodyArg, "GetPayload") {
 		payDirect = true
+	} else if rets, _ := sc.helperReturns(bodyArg, 0); len(rets) > 0 {
+		payVar = types.NewVar(token.NoPos, nil, "body", types.Typ[types.Invalid]) // marker: decided by paySites
+		addPaySite(newReq, bodyArg, 0)
 	}
 	// mirror / stream atoms
-	var mirrorKey string
-	if fd, ok := f.Node.(*ast.FuncDecl); ok {
-		for _, fl := range fd.Type.Params.List {
-			for _, id := range fl.Names {
-				if b, ok := f.Info.Defs[id].Type().Underlying().(*types.Basic); ok && b.Kind() == types.Bool {
-					mirrorKey = f.VarKey(id)
+	var mirrorKeys []string
+	for _, g := range sc.fns {
+		if fd, ok := g.Node.(*ast.FuncDecl); ok {
+			for _, fl := range fd.Type.Params.List {
+				for _, id := range fl.Names {
+					if b, ok := f.Info.Defs[id].Type().Underlying().(*types.Basic); ok && b.Kind() == types.Bool {
+						mirrorKeys = append(mirrorKeys, f.VarKey(id))
+					}
 				}
 			}
 		}
 	}
 	var streamCalls []*ast.CallExpr
-	for _, call := range calls(f.Body, false) {
-		if inCall(call, "IsStream") {
-			streamCalls = append(streamCalls, call)
+	for _, g := range sc.fns {
+		for _, call := range calls(g.Body, false) {
+			if inCall(call, "IsStream") {
+				streamCalls = append(streamCalls, call)
+			}
 		}
 	}
 	excused := func(st *flow.State) bool {
-		if mirrorKey == "" || !st.Is(mirrorKey, flow.True) {
+		mirror := false
+		for _, k := range mirrorKeys {
+			if st.Is(k, flow.True) {
+				mirror = true
+			}
+		}
+		if !mirror {
 			return false
 		}
 		for _, sc := range streamCalls {
@@ -304,14 +479,16 @@ func c03Request(c *core.Ctx, f *flow.Func, stores []*c03hdrStore) {
 	}
 
 	// --- Host atoms
-	var aKey, kKey string
-	ast.Inspect(f.Body, func(n ast.Node) bool {
+	var aKeys, kKeys []string
+	inspectAll(func(n ast.Node) bool {
 		if e, ok := n.(ast.Expr); ok {
 			switch c03fieldOf(f, e) {
 			case aField:
-				aKey, _ = f.Atom(e)
+				k, _ := f.Atom(e)
+				aKeys = append(aKeys, k)
 			case kField:
-				kKey, _ = f.Atom(e)
+				k, _ := f.Atom(e)
+				kKeys = append(kKeys, k)
 			}
 		}
 		return true
@@ -342,14 +519,36 @@ func c03Request(c *core.Ctx, f *flow.Func, stores []*c03hdrStore) {
 			hdrArgOK = false
 		}
 	}
+	paySite := func(st *flow.State, n ast.Node) {
+		e, ok := paySites[n]
+		if !ok {
+			return
+		}
+		if e != nil && inCall(e, "GetPayload") {
+			st.Set(evPayOrig, flow.True)
+			st.Set(evPayBad, flow.Unknown)
+			return
+		}
+		st.Set(evPayOrig, flow.Unknown)
+		if excused(st) {
+			st.Set(evPayBad, flow.Unknown)
+		} else {
+			st.Set(evPayBad, flow.True)
+		}
+	}
 	res := analyze(c, f, flow.Config{
 		NoHavoc: true,
+		Inline:  sc.inline(),
 		OnCall: func(st *flow.State, call *ast.CallExpr, callee types.Object, deferred bool) {
 			if call == newReq {
+				paySite(st, call)
 				st.Set(evBuilt, flow.True)
 			}
 		},
 		OnNode: func(st *flow.State, n ast.Node) {
+			if _, isCall := n.(*ast.CallExpr); !isCall {
+				paySite(st, n)
+			}
 			as, ok := n.(*ast.AssignStmt)
 			if !ok {
 				return
@@ -358,19 +557,6 @@ func c03Request(c *core.Ctx, f *flow.Func, stores []*c03hdrStore) {
 				st.Set(evQ, flow.True)
 			}
 			for i, l := range as.Lhs {
-				if id, ok := ast.Unparen(l).(*ast.Ident); ok && payVar != nil && c03obj(f, id) == payVar && len(as.Lhs) == len(as.Rhs) {
-					if inCall(as.Rhs[i], "GetPayload") {
-						st.Set(evPayOrig, flow.True)
-						st.Set(evPayBad, flow.Unknown)
-					} else {
-						st.Set(evPayOrig, flow.Unknown)
-						if excused(st) {
-							st.Set(evPayBad, flow.Unknown)
-						} else {
-							st.Set(evPayBad, flow.True)
-						}
-					}
-				}
 				if c03fieldOf(f, l) == hostField && c03root(f, l) != nil && isStoreTo(l, hostField) {
 					st.Set(evHost, flow.True)
 				}
@@ -391,7 +577,7 @@ func c03Request(c *core.Ctx, f *flow.Func, stores []*c03hdrStore) {
 		return
 	}
 	// static facts about the stores
-	ast.Inspect(f.Body, func(n ast.Node) bool {
+	inspectAll(func(n ast.Node) bool {
 		as, ok := n.(*ast.AssignStmt)
 		if !ok || len(as.Lhs) != len(as.Rhs) {
 			return true
@@ -444,7 +630,16 @@ func c03Request(c *core.Ctx, f *flow.Func, stores []*c03hdrStore) {
 		c.Violate("R-C03-4", name+"|body", pos(c, newReq), "the outbound body is not the inbound request's GetPayload(): the backend receives other body bytes than the client sent")
 	} else {
 		var bad *flow.State
+		direct, atCall := paySites[newReq]
 		for _, st := range res.At[newReq] {
+			if atCall {
+				// the argument expression itself decides (states at a call are recorded before it)
+				if !(direct != nil && inCall(direct, "GetPayload")) && !excused(st) {
+					bad = st
+					break
+				}
+				continue
+			}
 			if !st.Is(evPayOrig, flow.True) && (st.Is(evPayBad, flow.True) || !excused(st)) {
 				bad = st
 				break
@@ -471,11 +666,13 @@ func c03Request(c *core.Ctx, f *flow.Func, stores []*c03hdrStore) {
 	}
 	var badHdr, badStored, badHostSet, badHostUnset *flow.State
 	nSucc := 0
-	val := func(st *flow.State, k string) flow.Val {
-		if k == "" {
-			return flow.Unknown
+	val := func(st *flow.State, keys []string) flow.Val {
+		for _, k := range keys {
+			if v := st.Get(k); v != flow.Unknown {
+				return v
+			}
 		}
-		return st.Get(k)
+		return flow.Unknown
 	}
 	for _, ex := range res.Exits {
 		if !success(ex) {
@@ -489,13 +686,13 @@ func c03Request(c *core.Ctx, f *flow.Func, stores []*c03hdrStore) {
 		if !st.Is(evStored, flow.True) && badStored == nil {
 			badStored = st
 		}
-		if !st.Is(evHost, flow.True) && !(val(st, aKey) == flow.True && val(st, kKey) == flow.False) && badHostUnset == nil {
+		if !st.Is(evHost, flow.True) && !(val(st, aKeys) == flow.True && val(st, kKeys) == flow.False) && badHostUnset == nil {
 			badHostUnset = st
 		}
 	}
 	for _, as := range hostStores {
 		for _, st := range res.At[as] {
-			if !(val(st, aKey) == flow.False || val(st, kKey) == flow.True) && badHostSet == nil {
+			if !(val(st, aKeys) == flow.False || val(st, kKeys) == flow.True) && badHostSet == nil {
 				badHostSet = st
 			}
 		}
@@ -523,7 +720,7 @@ func c03Request(c *core.Ctx, f *flow.Func, stores []*c03hdrStore) {
 // c03AddrClassifier decides the second half of R-C03-5: who writes addrIsHostName, with what,
 // and that it runs for every server before every NewLoadBalancer.
 func c03AddrClassifier(c *core.Ctx) {
-	aField := structField(c, c03px, "Server", "addrIsHostName")
+	aField := c03hostNameFlag(c)
 	if aField == nil {
 		return
 	}
@@ -534,40 +731,31 @@ func c03AddrClassifier(c *core.Ctx) {
 		ast.Inspect(fd.Body, func(n ast.Node) bool {
 			switch x := n.(type) {
 			case *ast.AssignStmt:
-				for i, l := range x.Lhs {
+				for _, l := range x.Lhs {
 					if c03fieldOf(f, l) != aField {
 						continue
 					}
 					nWrites++
 					cons := declName(pkg, fd) + "|write of addrIsHostName"
 					fo, _ := pkg.TypesInfo.Defs[fd.Name].(*types.Func)
+					// the server classified is the one handed to the function (receiver or parameter)
 					recvOK := false
 					if fd.Recv != nil && len(fd.Recv.List) == 1 && len(fd.Recv.List[0].Names) == 1 {
-						recvOK = c03root(f, l) == pkg.TypesInfo.Defs[fd.Recv.List[0].Names[0]]
+						recvOK = c03rootOf(f, l) == pkg.TypesInfo.Defs[fd.Recv.List[0].Names[0]]
+					}
+					for _, fl := range fd.Type.Params.List {
+						for _, id := range fl.Names {
+							if c03rootOf(f, l) == pkg.TypesInfo.Defs[id] {
+								recvOK = true
+							}
+						}
 					}
 					if !recvOK || fo == nil {
-						c.Violate("R-C03-5", cons, pos(c, x), "addrIsHostName is written outside a method classifying its own receiver: the Host rule no longer follows the server address")
+						c.Violate("R-C03-5", cons, pos(c, x), "addrIsHostName is written for a server other than the one handed to the classifier: the Host rule no longer follows the server address")
 						continue
 					}
 					writers[fo] = true
-					if len(x.Lhs) != len(x.Rhs) {
-						c.Undecide("R-C03-5", cons, pos(c, x), "unrecognised assignment form")
-						continue
-					}
-					be, ok := ast.Unparen(x.Rhs[i]).(*ast.BinaryExpr)
-					isParse := func(e ast.Expr) bool {
-						call, ok := ast.Unparen(e).(*ast.CallExpr)
-						return ok && calleeIs(f, call, "net.ParseIP")
-					}
-					isNil := func(e ast.Expr) bool { return f.Info.Types[e].IsNil() }
-					switch {
-					case ok && be.Op == token.EQL && ((isParse(be.X) && isNil(be.Y)) || (isNil(be.X) && isParse(be.Y))):
-						c.Discharge("R-C03-5", cons, pos(c, x), "addrIsHostName = (net.ParseIP(host) == nil)")
-					case ok && be.Op == token.NEQ && ((isParse(be.X) && isNil(be.Y)) || (isNil(be.X) && isParse(be.Y))):
-						c.Violate("R-C03-5", cons, pos(c, x), "addrIsHostName is true exactly for IP addresses (inverted test): host-named servers get the client's Host, IP-addressed servers do not")
-					default:
-						c.Undecide("R-C03-5", cons, pos(c, x), "cannot relate the stored value to net.ParseIP(host) == nil")
-					}
+					c03classifierValue(c, f, x, l, cons)
 				}
 			case *ast.KeyValueExpr:
 				if id, ok := x.Key.(*ast.Ident); ok && pkg.TypesInfo.Uses[id] == aField {
@@ -601,83 +789,83 @@ func c03AddrClassifier(c *core.Ctx) {
 				c.Undecide("R-C03-5", cons, pos(c, lb), "unexpected argument count")
 				continue
 			}
-			sv := c03root(f, lb.Args[1])
-			if _, isIdent := ast.Unparen(lb.Args[1]).(*ast.Ident); !isIdent || sv == nil {
-				c.Undecide("R-C03-5", cons, pos(c, lb), "servers argument is not a variable")
-				continue
-			}
-			// candidate loops: range over sv whose body calls a writer on the element
+			sc := newC03scope(f, 2)
+			var sv types.Object
 			type cand struct {
-				rs   *ast.RangeStmt
+				rs   ast.Stmt
 				call *ast.CallExpr
 				it   *c03iter
 			}
 			var cands []*cand
-			ast.Inspect(fd.Body, func(n ast.Node) bool {
-				rs, ok := n.(*ast.RangeStmt)
-				if !ok {
-					return true
-				}
-				if id, ok := ast.Unparen(rs.X).(*ast.Ident); !ok || c03obj(f, id) != sv {
-					return true
-				}
-				for _, call := range calls(rs.Body, false) {
-					fo, ok := f.Callee(call).(*types.Func)
-					if !ok || !writers[fo] {
-						continue
-					}
-					sel, ok := ast.Unparen(call.Fun).(*ast.SelectorExpr)
-					if !ok {
-						continue
-					}
-					elem := false
-					switch r := ast.Unparen(sel.X).(type) {
-					case *ast.Ident:
-						if vid, ok := rs.Value.(*ast.Ident); ok && c03obj(f, r) == c03obj(f, vid) {
-							elem = true
-						}
-					case *ast.IndexExpr:
-						kid, ok1 := rs.Key.(*ast.Ident)
-						iid, ok2 := ast.Unparen(r.Index).(*ast.Ident)
-						xid, ok3 := ast.Unparen(r.X).(*ast.Ident)
-						if ok1 && ok2 && ok3 && c03obj(f, kid) == c03obj(f, iid) && c03obj(f, xid) == sv {
-							elem = true
-						}
-					}
-					if elem {
-						cands = append(cands, &cand{rs: rs, call: call, it: newC03iter(f, rs, nil)})
-						break
-					}
-				}
-				return true
+			var res *flow.Result
+			c03with(sc, func() {
+				sv = c03rootOf(f, lb.Args[1])
 			})
-			res := analyze(c, f, flow.Config{
-				NoHavoc: true,
-				Track:   func(string) bool { return false },
-				OnBlock: func(st *flow.State, b *cfg.Block) {
-					for _, cd := range cands {
-						cd.it.block(st, b)
-						if b.Stmt == cd.rs && b.Kind == cfg.KindRangeLoop {
-							st.Set("ev:classified", flow.True)
+			if _, isVar := sv.(*types.Var); !isVar {
+				c.Undecide("R-C03-5", cons, pos(c, lb), "servers argument is not a variable")
+				continue
+			}
+			c03with(sc, func() {
+				// candidate loops: a loop over every element of sv whose body hands the element to
+				// a writer of addrIsHostName (as receiver or argument) — here or in a helper
+				for _, g := range sc.fns {
+					for _, lp := range c03loops(f, g.Body) {
+						if c03rootOf(f, lp.coll) != sv {
+							continue
 						}
-					}
-				},
-				OnCall: func(st *flow.State, call *ast.CallExpr, callee types.Object, deferred bool) {
-					for _, cd := range cands {
-						if call == cd.call {
-							cd.it.mark(st)
+						if _, isIdent := ast.Unparen(lp.coll).(*ast.Ident); !isIdent {
+							continue
 						}
-					}
-				},
-				OnNode: func(st *flow.State, n ast.Node) {
-					if as, ok := n.(*ast.AssignStmt); ok {
-						for _, l := range as.Lhs {
-							if id, ok := ast.Unparen(l).(*ast.Ident); ok && c03obj(f, id) == sv {
-								st.Set("ev:classified", flow.Unknown)
+						for _, call := range calls(lp.body, false) {
+							fo, ok := f.Callee(call).(*types.Func)
+							if !ok || !writers[fo] {
+								continue
+							}
+							elem := false
+							if sel, ok := ast.Unparen(call.Fun).(*ast.SelectorExpr); ok && lp.isElem(f, sel.X) {
+								elem = true
+							}
+							for _, a := range call.Args {
+								if lp.isElem(f, a) {
+									elem = true
+								}
+							}
+							if elem {
+								cands = append(cands, &cand{rs: lp.stmt, call: call, it: newC03iter(f, lp.stmt, nil)})
+								break
 							}
 						}
 					}
-				},
+				}
+				res = analyze(c, f, flow.Config{
+					NoHavoc: true,
+					Inline:  sc.inline(),
+					Track:   func(string) bool { return false },
+					OnBlock: func(st *flow.State, b *cfg.Block) {
+						for _, cd := range cands {
+							cd.it.block(st, b)
+							if c03atHead(b, cd.rs) {
+								st.Set("ev:classified", flow.True)
+							}
+						}
+					},
+					OnCall: func(st *flow.State, call *ast.CallExpr, callee types.Object, deferred bool) {
+						for _, cd := range cands {
+							if call == cd.call {
+								cd.it.mark(st)
+							}
+						}
+					},
+					OnNode: func(st *flow.State, n ast.Node) {
+						if as, ok := n.(*ast.AssignStmt); ok {
+							for _, l := range as.Lhs {
+								if id, ok := ast.Unparen(l).(*ast.Ident); ok && c03obj(f, id) == sv {
+									st.Set("ev:classified", flow.Unknown)
+								}
+							}
+						}
+					},
+				})
 			})
 			if res == nil {
 				continue
@@ -693,7 +881,7 @@ func c03AddrClassifier(c *core.Ctx) {
 			var at ast.Node = lb
 			if bad == nil {
 				for _, cd := range cands {
-					if early := breaksOut(f, cd.rs, labelOf(fd.Body, cd.rs)); len(early) > 0 {
+					if early := breaksOut(f, cd.rs, ""); len(early) > 0 {
 						bad, at = res.At[lb][0], early[0]
 						why = "the classification loop can be left early: later servers keep addrIsHostName=false and receive the client's Host although they are host-named"
 					} else if cd.it.bad != nil {
@@ -707,4 +895,84 @@ func c03AddrClassifier(c *core.Ctx) {
 		}
 	})
 	c.RequireCount("R-C03-5", "NewLoadBalancer call sites in "+c03px, sites, 1)
+}
+
+// c03classifierValue decides that the value stored to addrIsHostName by `store` is
+// "net.ParseIP(host) == nil", however it is spelled (through a local, a named boolean, an
+// if/else with constants, a negation of the opposite test): on every exit after the store the
+// stored boolean and the nil-ness of the ParseIP result are both known and agree.
+func c03classifierValue(c *core.Ctx, f *flow.Func, store *ast.AssignStmt, lhs ast.Expr, cons string) {
+	sc := newC03scope(f, 2)
+	var nilKeys []string
+	for _, g := range sc.fns {
+		for _, call := range callsTo(g, g.Body, true, "net.ParseIP") {
+			nilKeys = append(nilKeys, f.NilKey(call))
+		}
+		ast.Inspect(g.Body, func(n ast.Node) bool {
+			if as, ok := n.(*ast.AssignStmt); ok && len(as.Lhs) == len(as.Rhs) {
+				for i, r := range as.Rhs {
+					if call, ok := ast.Unparen(r).(*ast.CallExpr); ok && calleeIs(f, call, "net.ParseIP") {
+						if id, ok := ast.Unparen(as.Lhs[i]).(*ast.Ident); ok {
+							nilKeys = append(nilKeys, f.NilKey(id))
+						}
+					}
+				}
+			}
+			return true
+		})
+	}
+	if len(nilKeys) == 0 {
+		c.Violate("R-C03-5", cons, pos(c, store), "addrIsHostName is not derived from net.ParseIP of the server's host: host-named and IP-addressed servers are no longer told apart for the Host rule")
+		return
+	}
+	valKey := f.VarKey(lhs)
+	var res *flow.Result
+	c03with(sc, func() {
+		res = analyze(c, f, flow.Config{
+			NoHavoc: true,
+			Inline:  sc.inline(),
+			OnNode: func(st *flow.State, n ast.Node) {
+				if n == ast.Node(store) {
+					st.Set("ev:stored", flow.True)
+				}
+			},
+		})
+	})
+	if res == nil {
+		return
+	}
+	var inverted, unknown *flow.State
+	n := 0
+	for _, ex := range res.Exits {
+		st := ex.State
+		if ex.Kind != flow.ExitReturn || !st.Is("ev:stored", flow.True) {
+			continue
+		}
+		n++
+		v := st.Get(valKey)
+		isNil := flow.Unknown
+		for _, k := range nilKeys {
+			if x := st.Get(k); x != flow.Unknown {
+				isNil = x
+			}
+		}
+		switch {
+		case v == flow.Unknown || isNil == flow.Unknown:
+			if unknown == nil {
+				unknown = st
+			}
+		case v != isNil:
+			if inverted == nil {
+				inverted = st
+			}
+		}
+	}
+	switch {
+	case inverted != nil:
+		c.Violate("R-C03-5", cons, pos(c, store), "addrIsHostName is true exactly for IP addresses (inverted test): host-named servers get the client's Host, IP-addressed servers do not", witness(inverted)...)
+	case unknown != nil || n == 0:
+		c.Undecide("R-C03-5", cons, pos(c, store), "cannot relate the stored value to net.ParseIP(host) == nil")
+	default:
+		c.Discharge("R-C03-5", cons, pos(c, store), sprintf("on all %d exits after the store addrIsHostName = (net.ParseIP(host) == nil)", n))
+	}
 }
